@@ -11,6 +11,34 @@ from numba import njit
 from numba import prange
 from numpy import uint64
 
+import os
+import ctypes
+
+# Verification hooks: dead code unless TANGERMEME_VERIF=1 is set in the
+# environment when this module is imported. They let an external monitor
+# (a) record which thread processes which query and (b) fill a thread's
+# scratch buffers with a chosen value before each query is processed.
+_VERIF = os.environ.get("TANGERMEME_VERIF", "0") == "1"
+_verif_state = {"events": [], "poison": None}
+
+def _verif_record(i, pid, nq):
+	_verif_state["events"].append((i, pid, nq))
+
+def _verif_poison_on():
+	return 0 if _verif_state["poison"] is None else 1
+
+def _verif_poison_float():
+	return float(_verif_state["poison"][0])
+
+def _verif_poison_int():
+	return int(_verif_state["poison"][1])
+
+_verif_trace = ctypes.CFUNCTYPE(None, ctypes.c_int64, ctypes.c_int64, 
+	ctypes.c_int64)(_verif_record)
+_verif_pon = ctypes.CFUNCTYPE(ctypes.c_int64)(_verif_poison_on)
+_verif_pf = ctypes.CFUNCTYPE(ctypes.c_double)(_verif_poison_float)
+_verif_pi = ctypes.CFUNCTYPE(ctypes.c_int64)(_verif_poison_int)
+
 
 @njit
 def _binned_median(x, bins, x_min, x_max, counts):
@@ -331,6 +359,20 @@ def _tomtom(Q, T, Q_lens, T_lens, Q_norm, T_norm, rr_inv, rr_counts, n_nearest,
 	for i in prange(len(Q_lens)):
 		nq = Q_lens[i]
 		pid = numba.get_thread_id()
+
+		if _VERIF:
+			_verif_trace(i, pid, nq)
+			if _verif_pon() == 1:
+				_pf = _verif_pf()
+				_gamma[pid][:] = _pf
+				_gamma_int[pid][:] = _verif_pi()
+				_f[pid][:] = _pf
+				_A[pid][:] = _pf
+				_B[pid][:] = _pf
+				_A_csum[pid][:] = _pf
+				_medians[pid][:] = _pf
+				_median_bins[pid][:] = _pf
+				_results[pid][:] = _pf
 
 		offset = _integer_distances_and_histogram(Q, T, _gamma[pid], 
 			_gamma_int[pid], _f[pid], _medians[pid], _median_bins[pid], Q_norm, 
